@@ -3,6 +3,7 @@ From Coq Require Import List NArith ZArith Bool String.
 From Coq Require Import Strings.Byte.
 From NfpmV Require Import Lib.Bytes Model.Content Model.Container Spec.C10.
 From NfpmV Require Import Proofs.C10Proofs.
+From NfpmV Require Import Model.RpmFile Proofs.RpmFileProofs Model.Tar Proofs.TarProofs.
 Import ListNotations.
 Open Scope list_scope.
 
@@ -49,3 +50,22 @@ Example C10_apk_member_names :
   apk_sig_member (B "named.rsa.pub") (B "x <y@z>") = B ".SIGN.RSA.named.rsa.pub" /\
   apk_sig_member (B "verif") [] = B ".SIGN.RSA.verif.rsa.pub".
 Proof. vm_compute. repeat split. Qed.
+
+(* rpm: the signatures in the signature section cover the header section (and, for the legacy tags, the payload
+   after it). In the stored file those are exactly the bytes from the 8-aligned offset after the signature section
+   on: whatever the signature section holds, a verifier that reads the stored file gets the bytes that were signed. *)
+Theorem C10_rpm_verifier_reads_what_was_signed : forall f, List.length (rf_lead f) = 96 ->
+  skipn (hdr_offset f) (rpm_encode f) = enc_section (rf_hdr f) ++ rf_payload f /\
+  firstn (List.length (enc_section (rf_hdr f))) (skipn (hdr_offset f) (rpm_encode f)) = enc_section (rf_hdr f).
+Proof. exact signed_region. Qed.
+Print Assumptions C10_rpm_verifier_reads_what_was_signed.
+
+(* apk: the signature is over the control segment as stored; the signature segment placed before it is a cut tar
+   segment, so the package still reads as one tar archive with the signature member first and every control and data
+   member unchanged after it *)
+Theorem C10_apk_signature_segment_leaves_the_rest : forall sg ctl data,
+  Forall wf_tmember sg -> Forall wf_tmember ctl -> Forall wf_tmember data ->
+  tar_members (S (List.length (sg ++ ctl ++ data))) (tar_cut sg ++ tar_cut ctl ++ tar_full data)
+  = Some (sg ++ ctl ++ data, repeat tnul 1024).
+Proof. intros sg ctl data W1 W2 W3. exact (proj2 (tar_segments_concatenate sg ctl data W1 W2 W3)). Qed.
+Print Assumptions C10_apk_signature_segment_leaves_the_rest.
